@@ -88,10 +88,12 @@ typedef struct {
     int stash[MAXT][32]; int nstash[MAXT];   /* free items for shared keys */
 } hist_t;
 static hist_t G;
-/* key numbering (keys start at 1): 1..nown owner keys (owner = key % threads, item idx = key), then shared, then ballast */
+/* key numbering (keys start at 1): 1..nown owner keys (owner = key % threads), then shared keys, then ballast keys
+ * (pre-inserted by the main thread before the threads start, then owned by thread key % threads) */
 #define KEY_SHARED0 (G.nown + 1)
 #define KEY_BALLAST0 (G.nown + G.nshared + 1)
 #define NKEYS (G.nown + G.nshared + G.nballast)
+#define ITEM_OF_KEY(k) ((k) <= G.nown ? (k) : (k) - G.nshared)      /* owner and ballast keys have one fixed item */
 
 static void hist_worker(int tid, int nt, void *arg) {
     (void)arg; vf_rng_t rng;
@@ -104,10 +106,11 @@ static void hist_worker(int tid, int nt, void *arg) {
             op_t *o = &G.log[tid][n]; uint32_t d = vf_randn(&rng, 100); int variant = (int)vf_randn(&rng, 6);
             o->tid = (int16_t)tid; o->val = -1; o->res = -1; o->variant = (int16_t)variant;
             if (d < 30) {                                   /* my owner keys: insert when absent, else remove or find */
-                int mine[MAXKEYS], nm = 0; for (int q = 1; q <= G.nown; q++) if (q % nt == tid) mine[nm++] = q;
+                /* my keys: the plain owner keys and my share of the pre-inserted (ballast) keys, which still sit in older tables */
+                int mine[MAXKEYS], nm = 0; for (int q = 1; q <= NKEYS; q++) if ((q <= G.nown || q >= KEY_BALLAST0) && q % nt == tid) mine[nm++] = q;
                 if (!nm) { d = 90; goto other; }
-                int key = mine[vf_randn(&rng, (uint32_t)nm)]; item_t *it = &pool[key]; o->key = (int16_t)key;
-                if (!G.own_present[key]) { it->hi.key = (parsec_key_t)key; o->type = O_INS; o->val = (int16_t)key; o->inv = vf_stamp(); do_insert(it, variant); o->resp = vf_stamp(); G.own_present[key] = 1; }
+                int key = mine[vf_randn(&rng, (uint32_t)nm)]; item_t *it = &pool[ITEM_OF_KEY(key)]; o->key = (int16_t)key;
+                if (!G.own_present[key]) { it->hi.key = (parsec_key_t)key; o->type = O_INS; o->val = (int16_t)it->idx; o->inv = vf_stamp(); do_insert(it, variant); o->resp = vf_stamp(); G.own_present[key] = 1; }
                 else if (vf_randn(&rng, 3)) { o->type = O_REM; o->inv = vf_stamp(); void *r = do_remove((parsec_key_t)key, variant); o->resp = vf_stamp(); o->res = (int16_t)idx_of(r); G.own_present[key] = 0; }
                 else { o->type = O_FIND; o->inv = vf_stamp(); void *r = do_find((parsec_key_t)key, variant); o->resp = vf_stamp(); o->res = (int16_t)idx_of(r); }
             } else if (d < 70 && G.nshared) {               /* shared keys: insert-if-absent or remove, by anybody */
@@ -169,7 +172,8 @@ static int sig_add(uint64_t s) {
     return 1;
 }
 static int visited[4096]; static int nvisit_bad;
-static void visit_cb(void *item, void *d) { (void)d; int i = idx_of(item); if (i < 0) nvisit_bad++; else visited[i]++; }
+static void visit_cb(void *item, void *d) { (void)d; int i = idx_of(item); if (i < 0) nvisit_bad++; else if (++visited[i] > 100000) {
+    vf_violation("ht:for_all:endless", "for_all visited item %d more than 100000 times on a quiescent table (cycle in a bucket chain)", i); fflush(stdout); _exit(1); } }
 
 static op_t HALL[MAXT * MAXOPS + 4 * MAXKEYS]; static int HALLN;
 static void print_key_history(const char *why, int key) {
@@ -209,7 +213,7 @@ static int run_hist(int argc, char **argv) {
         int nxt = G.nown + 1; HALLN = 0;
         memset(G.own_present, 0, sizeof G.own_present);
         table_open(bits, hint, maxbits);
-        for (int b = 0; b < G.nballast; b++) { int key = KEY_BALLAST0 + b; item_t *it = &pool[nxt++]; it->hi.key = (parsec_key_t)key; op_t *o = main_op(O_INS, key); o->val = (int16_t)it->idx; o->inv = vf_stamp(); do_insert(it, b); o->resp = vf_stamp(); }
+        for (int b = 0; b < G.nballast; b++) { int key = KEY_BALLAST0 + b; item_t *it = &pool[nxt++]; G.own_present[key] = 1; it->hi.key = (parsec_key_t)key; op_t *o = main_op(O_INS, key); o->val = (int16_t)it->idx; o->inv = vf_stamp(); do_insert(it, b); o->resp = vf_stamp(); }
         int per = G.nshared ? 3 : 0; for (int t = 0; t < G.nthreads; t++) { G.nstash[t] = 0; for (int q = 0; q < per; q++) G.stash[t][G.nstash[t]++] = nxt++; }
         int items_used = nxt, levels0 = table_levels(), bits0 = (int)ht.rw_hash->nb_bits;
         vf_spinbar_wait(&G.bar); vf_spinbar_wait(&G.bar);
@@ -221,19 +225,9 @@ static int run_hist(int argc, char **argv) {
         int present[MAXKEYS + 1]; int npresent = 0;
         for (int key = 1; key <= NKEYS; key++) { op_t *o = main_op(O_FIND, key); o->inv = vf_stamp(); void *r = parsec_hash_table_find(&ht, (parsec_key_t)key); o->resp = vf_stamp(); o->res = (int16_t)idx_of(r); present[key] = o->res; if (o->res >= 0) npresent++; }
         memset(visited, 0, sizeof visited); parsec_hash_table_for_all(&ht, visit_cb, NULL);
-        for (int pass = 0; pass < 2 && !vf_nviolations; pass++) {
-            int *v = pass ? visited : before; int expect[256]; memset(expect, 0, sizeof expect);
-            for (int key = 1; key <= NKEYS; key++) if (present[key] >= 0 && present[key] < 256) expect[present[key]]++;
-            for (int i = 0; i < 256 && !vf_nviolations; i++) {
-                if (v[i] > 1) vf_violation("ht:for_all:visited-twice", "history %ld: for_all on the quiescent table (%s the final finds) visited item %d %d times", h, pass ? "after" : "before", i, v[i]);
-                else if (v[i] == 1 && !expect[i]) vf_violation("ht:for_all:visited-absent", "history %ld: for_all visited item %d which no find returns", h, i);
-                else if (v[i] == 0 && expect[i]) vf_violation("ht:for_all:missed", "history %ld: for_all (%s the final finds) did not visit item %d which find returns (levels %d, bits %d)", h, pass ? "after" : "before", i, lv, nb);
-            }
-        }
-        if (nvisit_bad && !vf_nviolations) vf_violation("ht:for_all:garbage", "history %ld: for_all passed %d pointers that are not items", h, nvisit_bad);
         for (int key = 1; key <= NKEYS && !vf_nviolations; key++) if (present[key] >= 0) { op_t *o = main_op(O_REM, key); o->inv = vf_stamp(); void *r = parsec_hash_table_remove(&ht, (parsec_key_t)key); o->resp = vf_stamp(); o->res = (int16_t)idx_of(r); }
-        if (!vf_nviolations) { memset(visited, 0, sizeof visited); parsec_hash_table_for_all(&ht, visit_cb, NULL); for (int i = 0; i < 256; i++) if (visited[i]) { vf_violation("ht:for_all:visited-after-drain", "history %ld: item %d still visited after every key was removed", h, i); break; } }
-        if (!vf_nviolations) PARSEC_OBJ_DESTRUCT(&ht);
+        int after_drain[256]; memset(after_drain, 0, sizeof after_drain);
+        if (!vf_nviolations) { int keep[256]; memcpy(keep, visited, sizeof keep); memset(visited, 0, sizeof visited); parsec_hash_table_for_all(&ht, visit_cb, NULL); memcpy(after_drain, visited, sizeof after_drain); memcpy(visited, keep, sizeof keep); }
         totops += HALLN;
         /* results must be items (or NULL) */
         for (int i = 0; i < HALLN && !vf_nviolations; i++) if (HALL[i].res == -2 || HALL[i].res >= items_used) vf_violation("ht:returned-garbage", "history %ld: %s(key %d) returned a pointer that is not an item in use", h, opname[HALL[i].type], HALL[i].key);
@@ -258,6 +252,18 @@ static int run_hist(int argc, char **argv) {
                 print_key_history(kind, key);
             }
         }
+        for (int pass = 0; pass < 2 && !vf_nviolations; pass++) {
+            int *v = pass ? visited : before; int expect[256]; memset(expect, 0, sizeof expect);
+            for (int key = 1; key <= NKEYS; key++) if (present[key] >= 0 && present[key] < 256) expect[present[key]]++;
+            for (int i = 0; i < 256 && !vf_nviolations; i++) {
+                if (v[i] > 1) vf_violation("ht:for_all:visited-twice", "history %ld: for_all on the quiescent table (%s the final finds) visited item %d %d times", h, pass ? "after" : "before", i, v[i]);
+                else if (v[i] == 1 && !expect[i]) vf_violation("ht:for_all:visited-absent", "history %ld: for_all visited item %d which no find returns", h, i);
+                else if (v[i] == 0 && expect[i]) vf_violation("ht:for_all:missed", "history %ld: for_all (%s the final finds) did not visit item %d which find returns (levels %d, bits %d)", h, pass ? "after" : "before", i, lv, nb);
+            }
+        }
+        if (nvisit_bad && !vf_nviolations) vf_violation("ht:for_all:garbage", "history %ld: for_all passed %d pointers that are not items", h, nvisit_bad);
+        if (!vf_nviolations) for (int i = 0; i < 256; i++) if (after_drain[i]) { vf_violation("ht:for_all:visited-after-drain", "history %ld: item %d still visited after every key was removed", h, i); break; }
+        if (!vf_nviolations) PARSEC_OBJ_DESTRUCT(&ht);
         for (int i = 0; i < HALLN && !anyov; i++) for (int j = 0; j < HALLN; j++) if (HALL[i].tid != HALL[j].tid && HALL[i].tid != 99 && HALL[j].tid != 99 && HALL[i].inv < HALL[j].resp && HALL[j].inv < HALL[i].resp) { anyov = 1; break; }
         if (vf_nviolations) { bad++; break; }
         ok += hist_ok; overlapped += anyov; int rz = nb - bits; resizes += rz; if (rz) withresize++;
@@ -285,6 +291,7 @@ typedef struct {
     vf_spinbar_t bar; volatile int stop; volatile long epoch;
     volatile long ops, finds_other, shared_in, shared_out;
     int8_t *in;                               /* in[t*kpt+i]: owner's view of its key */
+    int *perm; int waves;
 } stress_t;
 static stress_t S;
 /* keys: owner keys 1..T*kpt (item idx = key), shared keys T*kpt+1 .. +nshared; shared items: per thread stash */
@@ -296,6 +303,25 @@ static void stress_worker(int tid, int nt, void *arg) {
         if (S.stop) break;
         vf_rng_seed(&rng, S.seed + (uint64_t)S.epoch * 7919, tid + 300);
         nst = 0; for (int q = 0; q < 8; q++) stash[nst++] = base + q;
+        /* wave: every thread inserts all its keys (the table grows through its generations), then every thread removes all
+         * its keys at the same time while looking up keys of the others: most of these operations work on older tables */
+        {
+            int *perm = S.perm + tid * S.kpt;
+            for (int ph = 0; ph < 2 && S.waves; ph++) {
+                for (int i = 0; i < S.kpt; i++) perm[i] = i;
+                for (int i = S.kpt - 1; i > 0; i--) { int j = (int)vf_randn(&rng, (uint32_t)i + 1), t = perm[i]; perm[i] = perm[j]; perm[j] = t; }
+                for (int q = 0; q < S.kpt && !vf_nviolations; q++) {
+                    int i = perm[q], key = tid * S.kpt + i + 1, variant = (int)vf_randn(&rng, 6); item_t *e = &pool[key]; int8_t *in = &S.in[tid * S.kpt + i];
+                    if (vf_randn(&rng, 3) == 0) { int o = (int)vf_randn(&rng, (uint32_t)nt), k2 = o * S.kpt + (int)vf_randn(&rng, (uint32_t)S.kpt) + 1; void *qq = do_find((parsec_key_t)k2, variant); fo++;
+                        if (qq && qq != &pool[k2]) { vf_violation("ht:stress:find-returned-other-item", "find(key %d) returned an item that is not the item of that key", k2); break; } }
+                    if (ph == 0) { if (!*in) { e->hi.key = (parsec_key_t)key; do_insert(e, variant); *in = 1; } }
+                    else if (*in) { void *p = do_remove((parsec_key_t)key, variant); *in = 0;
+                        if (p != e) { vf_violation(p ? "ht:stress:remove-returned-other-item" : "ht:stress:present-key-not-removed", "wave: thread %d removing its present key %d got %s (table bits %u, %d levels)", tid, key, p ? "another pointer" : "NULL", ht.rw_hash->nb_bits, table_levels()); break; } }
+                    n++; if ((n & 255) == 0) VF_TICK();
+                }
+                vf_spinbar_wait(&S.bar);
+            }
+        }
         for (long r = 0; r < S.rounds && !vf_nviolations; r++) {
             uint32_t d = vf_randn(&rng, 100); int variant = (int)vf_randn(&rng, 6);
             if (d < 70) {
@@ -329,15 +355,17 @@ static int run_stress(int argc, char **argv) {
     int hint = (int)vf_arg_ll(argc, argv, "--hint", 1), maxbits = (int)vf_arg_ll(argc, argv, "--maxbits", 12); hmod = (uint64_t)vf_arg_ll(argc, argv, "--hmod", 0);
     npool = S.nthreads * S.kpt + S.nshared + 1 + S.nthreads * 8; if (npool > 4096) return 2;
     if (posix_memalign((void **)&pool, 64, sizeof(item_t) * (size_t)npool)) return 2; memset(pool, 0, sizeof(item_t) * (size_t)npool); for (int i = 0; i < npool; i++) pool[i].idx = i;
-    S.in = calloc((size_t)(S.nthreads * S.kpt), 1);
+    S.in = calloc((size_t)(S.nthreads * S.kpt), 1); S.perm = calloc((size_t)(S.nthreads * S.kpt), sizeof(int)); S.waves = (int)vf_arg_ll(argc, argv, "--waves", 1);
     vf_spinbar_init(&S.bar, S.nthreads + 1);
     pthread_t th[MAXT]; vf_team_ctx_t cx[MAXT]; pthread_barrier_t pb; pthread_barrier_init(&pb, NULL, (unsigned)S.nthreads);
     for (int i = 0; i < S.nthreads; i++) { cx[i] = (vf_team_ctx_t){stress_worker, NULL, i, S.nthreads, &pb}; pthread_create(&th[i], NULL, vf_team_tramp, &cx[i]); }
-    long resizes = 0, maxlevels = 0, done = 0;
+    long resizes = 0, maxlevels = 0, done = 0, levels_after_grow = 0;
     for (long ep = 0; ep < epochs && !vf_nviolations; ep++) {
         S.epoch = ep; memset(S.in, 0, (size_t)(S.nthreads * S.kpt));
         int bits = 1 + (int)(ep % 3); table_open(bits, hint, maxbits);
-        vf_spinbar_wait(&S.bar); vf_spinbar_wait(&S.bar);
+        vf_spinbar_wait(&S.bar);
+        if (S.waves) { vf_spinbar_wait(&S.bar); int l2 = table_levels(); if (l2 > maxlevels) maxlevels = l2; levels_after_grow += l2; vf_spinbar_wait(&S.bar); }
+        vf_spinbar_wait(&S.bar);
         if (vf_nviolations) break;
         int lv = table_levels(); if (lv > maxlevels) maxlevels = lv; resizes += (int)ht.rw_hash->nb_bits - bits;
         memset(visited, 0, sizeof visited); nvisit_bad = 0; parsec_hash_table_for_all(&ht, visit_cb, NULL);
@@ -355,8 +383,8 @@ static int run_stress(int argc, char **argv) {
     }
     S.stop = 1; vf_spinbar_wait(&S.bar);
     for (int i = 0; i < S.nthreads; i++) pthread_join(th[i], NULL);
-    vf_out("{\"type\":\"summary\",\"mode\":\"stress\",\"epochs\":%ld,\"ops\":%ld,\"finds_other\":%ld,\"shared_inserted\":%ld,\"shared_removed\":%ld,\"resizes\":%ld,\"max_levels\":%ld,\"threads\":%d,\"hint\":%d,\"yield_hits\":%llu}",
-           done, S.ops, S.finds_other, S.shared_in, S.shared_out, resizes, maxlevels, S.nthreads, hint, (unsigned long long)vf_yield_hits(PARSEC_VERIF_SITE_HASH_TABLE));
+    vf_out("{\"type\":\"summary\",\"mode\":\"stress\",\"epochs\":%ld,\"ops\":%ld,\"finds_other\":%ld,\"shared_inserted\":%ld,\"shared_removed\":%ld,\"resizes\":%ld,\"max_levels\":%ld,\"generations_after_grow_sum\":%ld,\"threads\":%d,\"hint\":%d,\"yield_hits\":%llu}",
+           done, S.ops, S.finds_other, S.shared_in, S.shared_out, resizes, maxlevels, levels_after_grow, S.nthreads, hint, (unsigned long long)vf_yield_hits(PARSEC_VERIF_SITE_HASH_TABLE));
     return vf_nviolations ? 1 : 0;
 }
 
